@@ -17,7 +17,7 @@ MCNext ==
     \/ DoBurstBegin \/ B_Load \/ B_Credit \/ B_Reload \/ B_Wake \/ BalanceDone
     \/ DoBurstSegment \/ PadInitial \/ DebitBegin \/ S_Load \/ S_Sub \/ DebitDone \/ SendPackets
     \/ W_Poll \/ WaitDone \/ Woken
-View == <<credit, state, wbit, wreg, asleep, rcvd, sent, task, sp>>
+View == <<credit, state, wbit, wreg, asleep, badwake, rcvd, sent, task, sp>>
 \* liveness form of "sending resumes": under fair scheduling a parked burst task does not stay parked while budget exists
 Fair == WF_vars(R_Load \/ R_Add \/ R_Wake \/ G_Cas \/ A_Cas \/ G_Wake) /\ WF_vars(W_Poll \/ WaitDone \/ Woken)
 MCSpec == Init /\ [][MCNext]_vars /\ Fair
